@@ -160,6 +160,27 @@ def run_one(member, sizes, inputs, f_eval, f_asm, f_cmp, props, cap):
             if c not in want:
                 fails.append(dict(prop="C01", what=f"stored coordinate {c} outside the target dimensions {odims}"))
                 break
+    if "C01" in props:
+        # the stand-alone assemble and compute kernels are kernels too: what assemble;compute leaves must be the same algebra
+        st4, tids4 = K.fresh_state(member, sizes, inputs)
+        r1 = K.run_function(f_asm, st4)
+        if r1[0] == "return" and r1[1] == S.VI(0):
+            r2 = K.run_function(f_cmp, st4)
+            if r2[0] != "return" or r2[1] != S.VI(0):
+                fails.append(dict(prop="C01", what=f"the compute kernel does not complete on the structure assemble built: {r2[1] if r2[0] == 'err' else r2}"))
+            else:
+                v4 = K.read_output(st4, tids4[tname], ofmt, odims)
+                if not v4.ok:
+                    fails.append(dict(prop="C01", what="assemble;compute leaves a tensor that cannot be decoded: " + "; ".join(v4.problems[:2])))
+                else:
+                    want4 = algebra.meaning(a, sizes, doks)
+                    for c, w in want4.items():
+                        g = algebra.Poly.const(v4.dok[c]) if c in v4.dok else algebra.Poly()
+                        if g != w:
+                            fails.append(dict(prop="C01", what=f"assemble;compute: value at {c}: kernels give {g}, tensor algebra gives {w}"))
+                            break
+        elif r1[0] == "err":
+            fails.append(dict(prop="C01", what=f"the assemble kernel does not complete on the reference machine: {r1[1]}"))
     if "C03" in props and any(m == Mode.compressed for m in ofmt.modes):
         supp = algebra.support(a, sizes, {n: set(d.keys()) for n, d in doks.items()})
         # only coordinates below a compressed level are claimed: project onto the levels up to the last compressed one
